@@ -72,6 +72,8 @@ func main() {
 		os.Exit(cmdRun(os.Args[2:]))
 	case "replay":
 		os.Exit(cmdReplay(os.Args[2:]))
+	case "selftest":
+		os.Exit(cmdSelftest(os.Args[2:]))
 	default:
 		fmt.Fprintln(os.Stderr, "unknown command")
 		os.Exit(2)
@@ -588,7 +590,7 @@ func TestVerifReplay(t *testing.T) {
 	ovb, _ := json.Marshal(map[string]interface{}{"Replace": repl})
 	ovPath := filepath.Join(tmp, "overlay.json")
 	os.WriteFile(ovPath, ovb, 0o644)
-	cmd := exec.Command("go", "test", "-tags", "verif", "-vet=off", "-count=1", "-overlay", ovPath, "-run", "^TestVerifReplay$", "-timeout", "120s", "./"+spec.Package)
+	cmd := exec.Command("go", "test", "-v", "-tags", "verif", "-vet=off", "-count=1", "-overlay", ovPath, "-run", "^TestVerifReplay$", "-timeout", "120s", "./"+spec.Package)
 	cmd.Dir = repoDir
 	cmd.Env = append(os.Environ(), "GOFLAGS=-mod=mod", "GOPROXY=off", "VERIF_REPLAY="+replayPath)
 	out, err := cmd.CombinedOutput()
@@ -689,7 +691,7 @@ func writeEvidence(spec *Spec, tier string, seed int, start time.Time, reports [
 	if len(samples) == 0 {
 		samples = append(samples, "no completed path")
 	}
-	var as []string
+	as := []string{"trusted: go/packages + go/ssa translation, gosmt executor and intrinsics, z3"}
 	as = append(as, spec.Assumptions...)
 	for a := range assumes {
 		as = append(as, "engine: "+a)
